@@ -14,7 +14,7 @@
    about the ".tmp" file or the directory. *)
 From Coq Require Import String Ascii.
 From Coq Require Import ZArith List Bool.
-From BV Require Import Model.KeyStore Proofs.KeyStore.
+From BV Require Import Gen.C15Source Model.KeyStore Proofs.KeyStore.
 Import ListNotations.
 Open Scope Z_scope.
 
@@ -167,6 +167,81 @@ Theorem C15_key_order_kept : forall d h o, db_sorted d = true -> db_sorted (fst 
 Proof. exact a_step_sorted. Qed.
 Print Assumptions C15_key_order_kept.
 
+(* ------------------------------------------------------------------ end to end *)
+(* What a named store sees after any history of operations through any named stores on
+   one file is exactly its own updates and deletions applied in order to what it saw
+   before: independently per namespace, the other namespaces' operations leave no trace. *)
+Theorem C15_view_history : forall items d h,
+  str_eqb h DEFAULT_NAMESPACE = false -> forallb item_named items = true ->
+  view (fst (a_run d items [])) h = replay_view h items (view d h).
+Proof. exact view_history. Qed.
+Print Assumptions C15_view_history.
+
+Theorem C15_get_after_history : forall items d h name,
+  str_eqb h DEFAULT_NAMESPACE = false -> forallb item_named items = true ->
+  snd (a_step (fst (a_run d items [])) h (Get name)) =
+  match lookup name (replay_view h items (view d h)) with
+  | None => OGet None
+  | Some pd => match from_dict pd with Some k => OGet (Some k) | None => OBadKeys end
+  end.
+Proof. exact get_after_history. Qed.
+Print Assumptions C15_get_after_history.
+
+(* get_resolving_keys: exactly the stored entries that have an IRK, with the stored address
+   type or RANDOM_DEVICE_ADDRESS *)
+Theorem C15_resolving_keys : forall l v name t,
+  In (v, name, t) (resolving_keys l) <->
+  exists k key, In (name, k) l /\ irk k = Some key /\ v = k_value key /\
+                t = match address_type k with Some a => a | None => RANDOM_DEVICE_ADDRESS end.
+Proof. exact resolving_keys_spec. Qed.
+Print Assumptions C15_resolving_keys.
+
+(* ------------------------------------------------------------------ the model matches the source
+   Gen/C15Source.v is regenerated from bumble/keys.py on every run by
+   tools/translate/c15_source.py (which fails closed on any statement it does not know). *)
+
+(* The dataclass fields of PairingKeys, the members to_dict writes and the members from_dict
+   reads are the same set, with the same kinds, and it is the set the model serialises: a
+   field added to PairingKeys without being written and read back breaks this. *)
+Theorem C15_fields_match_source :
+  sort_by_name src_pairingkeys_fields = to_dict_shape /\
+  sort_by_name src_to_dict_fields = to_dict_shape /\
+  sort_by_name src_from_dict_fields = to_dict_shape /\
+  List.length src_pairingkeys_fields = List.length to_dict_shape /\
+  List.length src_to_dict_fields = List.length to_dict_shape /\
+  List.length src_from_dict_fields = List.length to_dict_shape /\
+  from_dict_reads_all = true.
+Proof. vm_compute. repeat split. Qed.
+Print Assumptions C15_fields_match_source.
+
+Theorem C15_key_fields_match_source :
+  sort_by_name src_key_to_dict_fields = key_to_dict_shape /\
+  map fst (sort_by_name (map (fun n => (n, tt)) src_key_fields)) = map fst key_to_dict_shape /\
+  List.length src_key_fields = List.length key_to_dict_shape /\
+  List.length src_key_to_dict_fields = List.length key_to_dict_shape /\
+  key_auth_default = Some src_key_auth_default.
+Proof. vm_compute. repeat split. Qed.
+Print Assumptions C15_key_fields_match_source.
+
+(* save: guarded mkdir, a temporary file next to the key file (same directory, suffix
+   ".tmp") opened for writing, one json.dump with exactly the modelled arguments, close,
+   os.replace onto the key file: the step list the crash theorems quantify over. *)
+Theorem C15_save_matches_source :
+  src_save_shape = save_shape /\ src_tmp_suffix = TMP_SUFFIX /\ src_dump_args = DUMP_ARGS.
+Proof. vm_compute. repeat split. Qed.
+Print Assumptions C15_save_matches_source.
+
+Theorem C15_load_matches_source :
+  src_load = LOAD_SKELETON /\ src_adopt_count = Z.of_nat ADOPT_COUNT /\
+  src_default_namespace = DEFAULT_NAMESPACE.
+Proof. vm_compute. repeat split. Qed.
+Print Assumptions C15_load_matches_source.
+
+Theorem C15_ops_match_source :
+  src_ops = OPS_SKELETON /\ src_random_device_address = RANDOM_DEVICE_ADDRESS.
+Proof. vm_compute. repeat split. Qed.
+Print Assumptions C15_ops_match_source.
+
 (* ------------------------------------------------------------------ non-vacuity and witnesses *)
 Definition ex_key := mkKey [1; 2; 255] true (Some 0) (Some []).
 Definition ex_keys := mkKeys (Some 1) (Some ex_key) None None None None None (Some 0).
@@ -189,6 +264,15 @@ Proof. vm_compute. repeat split. Qed.
 
 Example C15_rel_initial : forall dir tmp, rel (mkFs dir None tmp) [].
 Proof. exact rel_init. Qed.
+
+(* names that need JSON escapes (quote, backslash, control characters, non-ASCII, beyond
+   the BMP) are well formed and survive the file *)
+Example C15_escaped_names :
+  let name := [34; 92; 10; 0; 127; 233; 8364; 128512] in
+  let d := [(name, [(name, to_dict ex_keys)])] in
+  db_ok d = true /\ parse (ser_db d) = Some d /\
+  quote name = S_ """\""\\\n\u0000\u007f\u00e9\u20ac\ud83d\ude00""".
+Proof. vm_compute. repeat split. Qed.
 
 (* what D15 left in the file (the JSON string "NS1") is not a database *)
 Example C15_D15_effect : parse (S_ """NS1""") = None.
